@@ -478,6 +478,41 @@ type FuncContract struct {
 	Raw       []string
 }
 
+// merge adds the clauses of a second contract block for the same function
+// (another file of the package) to fc.
+func (fc *FuncContract) merge(o *FuncContract) {
+	fc.Requires = append(fc.Requires, o.Requires...)
+	fc.Ensures = append(fc.Ensures, o.Ensures...)
+	fc.Assumes = append(fc.Assumes, o.Assumes...)
+	fc.Modifies = append(fc.Modifies, o.Modifies...)
+	fc.HasMod = fc.HasMod || o.HasMod
+	for n, l := range o.Loops {
+		if cur, ok := fc.Loops[n]; ok {
+			cur.Invariants = append(cur.Invariants, l.Invariants...)
+			cur.Modifies = append(cur.Modifies, l.Modifies...)
+			cur.HasMod = cur.HasMod || l.HasMod
+		} else {
+			fc.Loops[n] = l
+		}
+	}
+	fc.MayPanic = fc.MayPanic || o.MayPanic
+	fc.Opaque = fc.Opaque || o.Opaque
+	fc.Pure = fc.Pure || o.Pure
+	fc.Deterministic = fc.Deterministic || o.Deterministic
+	fc.NoInline = fc.NoInline || o.NoInline
+	fc.InlineCalls = fc.InlineCalls || o.InlineCalls
+	fc.Overflow = fc.Overflow || o.Overflow
+	fc.Wraps = fc.Wraps || o.Wraps
+	fc.Fresh = append(fc.Fresh, o.Fresh...)
+	if len(fc.Params) == 0 {
+		fc.Params = o.Params
+	}
+	fc.Uses = append(fc.Uses, o.Uses...)
+	fc.PostUses = append(fc.PostUses, o.PostUses...)
+	fc.CallSites = append(fc.CallSites, o.CallSites...)
+	fc.Raw = append(fc.Raw, o.Raw...)
+}
+
 // CallSiteSpec attaches an obligation to the k-th call of a callee inside a
 // function: "at call NAME#K assert E".
 type CallSiteSpec struct {
@@ -527,6 +562,7 @@ type Ghost struct {
 	Name  string
 	IsMap bool
 	Elem  string // int | bool
+	Counter bool // int-valued and only ever incremented by the contracts that mention it
 }
 
 var clauseKeywords = map[string]bool{
@@ -584,10 +620,15 @@ func parseContractLines(pkg string, lines []string) (*PkgContracts, error) {
 			cur, curLemma = nil, nil
 		case "ghost":
 			f := strings.Fields(rest)
+			counter := false
+			if len(f) == 3 && f[2] == "counter" {
+				// a counter is only ever incremented: havocs keep it monotone
+				counter, f = true, f[:2]
+			}
 			if len(f) != 2 {
 				return nil, fmt.Errorf("%s: bad ghost declaration %q", pkg, s)
 			}
-			g := &Ghost{Name: f[0], Elem: f[1]}
+			g := &Ghost{Name: f[0], Elem: f[1], Counter: counter}
 			if strings.HasPrefix(f[1], "map[int]") {
 				g.IsMap = true
 				g.Elem = strings.TrimPrefix(f[1], "map[int]")
@@ -630,10 +671,15 @@ func parseContractLines(pkg string, lines []string) (*PkgContracts, error) {
 			cur, curLemma = nil, nil
 		case "func", "iface", "extern":
 			name := strings.TrimSpace(rest)
-			cur = &FuncContract{Name: name, Pkg: pkg, Loops: map[int]*LoopSpec{}, IsIface: kw == "iface", IsExtern: kw == "extern"}
 			curLemma = nil
-			pc.Funcs[name] = cur
-			pc.Order = append(pc.Order, name)
+			if prev, ok := pc.Funcs[name]; ok {
+				// a second head for the same function continues its contract
+				cur = prev
+			} else {
+				cur = &FuncContract{Name: name, Pkg: pkg, Loops: map[int]*LoopSpec{}, IsIface: kw == "iface", IsExtern: kw == "extern"}
+				pc.Funcs[name] = cur
+				pc.Order = append(pc.Order, name)
+			}
 		case "lemma":
 			name, params, ptypes, _, err := parseSig(rest)
 			if err != nil {
